@@ -27,8 +27,13 @@ impl Rng {
     pub fn below(&mut self, n: u64) -> u64 {
         self.next_u64() % n
     }
-    pub fn below128(&mut self, n: u128) -> u128 {
-        self.next_u128() % n
+    /// uniform in [0, n]
+    pub fn below128_incl(&mut self, n: u128) -> u128 {
+        if n == u128::MAX {
+            self.next_u128()
+        } else {
+            self.next_u128() % (n + 1)
+        }
     }
     pub fn range(&mut self, lo: u64, hi_incl: u64) -> u64 {
         lo + self.below(hi_incl - lo + 1)
